@@ -294,6 +294,16 @@ CASES = [
 ]
 
 
+# a column that is re-defined after a join, inline and with the prefix named by let (typed tables, so that the CTE lists its columns): the overwritten column
+# leaves the CTE under a generated alias, not under the name of its successor
+TYPED = "module default_db {\n  let a <[{id = int, x = int, t = int}]>\n  let b <[{id = int, y = int, a = int, t = int}]>\n}\n"
+ALIAS_CASES = [
+    (TYPED + "from a\njoin b (a.id == b.id)\nderive {x = a.x * 2}\nselect {x, y}\nsort {y}\n", [(20, 100), (40, 200)]),
+    (TYPED + "let p = (from a | join b (a.id == b.id) | derive {x = a.x * 2})\nfrom p\nselect {x, y}\nsort {y}\n", [(20, 100), (40, 200)]),
+    (TYPED + "let p = (from a | join b (a.id == b.id) | derive {t = b.t + 1})\nfrom p\nselect {t, y}\nsort {y}\n", [(7, 100), (5, 200)]),
+]
+
+
 def _try(src, exp):
     import replaylib
     ok, sql = replaylib.compile_prql(src, "sql.sqlite")
@@ -306,7 +316,8 @@ def _try(src, exp):
 
 
 def replay(failure):
-    for src, exp in CASES:
+    lab = failure.get("obligation", "").split(".", 1)[-1]
+    for src, exp in (ALIAS_CASES + CASES if lab.startswith("SS2") else CASES + ALIAS_CASES):
         r = _try(src, exp)
         if r["failing"]:
             return r
@@ -325,5 +336,9 @@ def sweep():
     for src, exp in CASES:
         r = _try(src, exp)
         r["obligation"] = "select_shape.DD1"
+        out.append(r)
+    for src, exp in ALIAS_CASES:
+        r = _try(src, exp)
+        r["obligation"] = "select_shape.SS2a"
         out.append(r)
     return out
